@@ -196,10 +196,11 @@ CHECKS["C01"] = dict(
 )
 
 CHECKS["C17"] = dict(
-    jobs=[dict(pkg="pkg/pacing", entry="HC17Pacing", params=dict(packets=2), require_covers=["all delivered"], no_native=True)],
+    jobs=[dict(pkg="pkg/pacing", entry="HC17Pacing", params=dict(packets=2), require_covers=["all delivered"], no_native=True),
+          dict(pkg="pkg/gcc", entry="HC02LeakyBucketSize", params=dict(concretenow=1, maxlen=1500), require_covers=["accepted"])],
     bounds=dict(quick="pacing interceptor with a contract-stub limiter (Budget answers plenty/nothing nondeterministically, AllowN recorded), 2 streams, 2 packets on symbolically chosen streams with payload 0..2 symbolic bytes, ticker fired (or not) after each write and 3 more times at the end, every select/scheduling choice of the loop goroutine explored; the caller overwrites header and payload after each Write; Close",
                 thorough="same (3 packets did not finish within 50 minutes)"),
-    outside=["golang.org/x/time/rate arithmetic (the limiter is a contract stub: released bits <= burst + rate*elapsed follows for any limiter honouring Budget/AllowN)", "gcc LeakyBucketPacer and NoOpPacer", "queue overflow at 10^6", "real-time behaviour", "concurrent writers (writes are issued sequentially by the harness thread)"],
+    outside=["golang.org/x/time/rate arithmetic (the limiter is a contract stub: released bits <= burst + rate*elapsed follows for any limiter honouring Budget/AllowN)", "gcc LeakyBucketPacer beyond one packet of any size 0..1500 followed by a second one (single delivery, intact, caller scribbling, Close); NoOpPacer", "queue overflow at 10^6", "real-time behaviour", "concurrent writers (writes are issued sequentially by the harness thread)"],
     assumptions=["cooperative threads; ticker fires only where the harness fires it"],
 )
 
@@ -208,10 +209,11 @@ CHECKS["C13"] = dict(
         dict(pkg="pkg/flexfec", entry="HC13FlexFEC", require_covers=["repair emitted"]),
         dict(pkg="internal/rtpbuffer", entry="HC04BufferHistory", params=dict(size=2, ops=2, fwd=3, back=3, rtx=1, csrc=1)),
         dict(pkg="pkg/pacing", entry="HC17Pacing", params=dict(packets=2), no_native=True),
+        dict(pkg="pkg/gcc", entry="HC02LeakyBucketSize", params=dict(concretenow=1, maxlen=1500), require_covers=["accepted"]),
     ],
     bounds=dict(quick="self-composition for the FlexFEC encoder interceptor (2 media packets + 1 repair; fresh buffers vs one reused payload array/header object overwritten with symbolic bytes right after each Write; everything emitted compared for all scribble values); NACK responder packet factory in copy mode (caller overwrites payload, header fields and CSRC array after each send, lookup afterwards; RTX form); pacing interceptor (caller overwrites after each accepted Write, release later)",
                 thorough="same"),
-    outside=["gcc LeakyBucketPacer, packetdump, stats, jitter buffer interceptor, twcc sender", "race detection between the interceptor's goroutines and the scribbling caller (see C10)", "histories longer than 2-3 packets"],
+    outside=["packetdump, stats, jitter buffer interceptor, twcc sender; gcc LeakyBucketPacer beyond two packets", "race detection between the interceptor's goroutines and the scribbling caller (see C10)", "histories longer than 2-3 packets"],
     assumptions=["sync.Pool LIFO", "cooperative threads"],
 )
 
